@@ -11,6 +11,10 @@ for f in sorted((V / "known_findings.d").glob("*.json")):
     for x in d.get("findings", []):
         findings[json.dumps(x, sort_keys=True)] = x
     for x in d.get("fixed", []) or []:
+        if isinstance(x, dict):   # normalise to the one-line form
+            x = "fixed: property=%s %s %s" % (x.get("property", "?"), x.get("commit") or x.get("sha") or x.get("fixed_by") or "",
+                                              x.get("what") or x.get("signature") or json.dumps(x, sort_keys=True))
+            x = x.replace("fixed: property=%s %s fixed: property=" % (x.split("property=")[1].split()[0], ""), "fixed: property=")
         if x not in fixed:
             fixed.append(x)
     f.unlink()
